@@ -65,7 +65,7 @@ fn main() {
     let mut by_writer: BTreeMap<String, usize> = BTreeMap::new();
     let mut ends: BTreeMap<String, usize> = BTreeMap::new();
     let seeks = [SeekPol::Default, SeekPol::Seconds(1), SeekPol::Frames(1), SeekPol::Frames(3), SeekPol::None];
-    let n = scale(if thorough { 900 } else { 90 });
+    let n = scale(if thorough { 1500 } else { 90 });
     for i in 0..n {
         let seek = seeks[i % seeks.len()].clone();
         let declare_total = (i / seeks.len()) % 2 == 0;
